@@ -27,7 +27,8 @@ def base_flags(release=True):
           "-isystem", SYS_PREFIX,
           "-std=gnu++11", "-mcx16",
           "-DGTEST_LANG_CXX11", "-DCDSTEST_GTEST_INSTANTIATE_TEST_CASE_P_HAS_4TH_ARG",
-          "-DCDSTEST_HAVE_BYTESWAP_H", "-Wno-everything", "-ferror-limit=0"]
+          "-DCDSTEST_HAVE_BYTESWAP_H", "-DCDSUNIT_ENABLE_BOOST_CONTAINER",    # test/unit/striped-{set,map}/CMakeLists.txt define it
+          "-Wno-everything", "-ferror-limit=0"]
     fl.append("-DNDEBUG" if release else "-UNDEBUG")
     return fl
 
@@ -79,7 +80,7 @@ def expand_tus(patterns):
 
 def _one(args):
     tu, files_re, names_re, release, outdir, max_inst = args
-    key = hashlib.sha1(("%s|%s|%s|%s|%s|%s" % (tu, files_re, names_re, release, tree_hash(), max_inst)).encode()).hexdigest()
+    key = hashlib.sha1(("%s|%s|%s|%s|%s|%s|%s" % (tu, files_re, names_re, release, tree_hash(), max_inst, " ".join(base_flags(release)))).encode()).hexdigest()
     out = os.path.join(outdir, key + ".json")
     if os.path.exists(out) and os.path.getsize(out) > 0:
         return tu, out, 0.0, "", True
@@ -148,7 +149,8 @@ def extract(tu_patterns, files_re, names_re=".", release=True, jobs=None, log=No
             continue
         cached += 1 if was_cached else 0
         db.add_tu(out)
-    info = {"tus": len(tus), "tus_cached": cached, "functions": len(db),
+    empty = [t.replace(REPO + "/", "") for t in db.empty_tus] if hasattr(db, "empty_tus") else []
+    info = {"tus": len(tus), "tus_cached": cached, "functions": len(db), "tus_without_matching_functions": empty,
             "extract_s": round(time.time() - t0, 2), "tu_list": [t.replace(REPO + "/", "") for t in tus]}
     if failed:
         raise AnalysisBroken("extractor failed on %d TU(s): %s\n%s" % (
